@@ -3,13 +3,13 @@
 From RV Require Export Base.Util Base.IntStr Model.RolloutSM Model.TrafficMgr Model.RolloutTR Corr.RolloutSM Corr.TrafficMgr.
 
 Record trcase := {
-  x_inner : ro_case; x_strategies : list strategy; x_zero_grace : bool; x_net : net; x_pending : graces;
+  x_inner : ro_case; x_strategies : list strategy; x_zero_grace : bool; x_gateway_fails : bool; x_net : net; x_pending : graces;
   x_obs_net : net; x_obs_writes : list string; x_obs_pending : list gaction
 }.
 Definition case := trcase.
 
 Definition tspec (c : case) : tr_spec :=
-  {| ts_sp := rc_spec (x_inner c); ts_strategies := x_strategies c; ts_refs := true; ts_zero_grace := x_zero_grace c |}.
+  {| ts_sp := rc_spec (x_inner c); ts_strategies := x_strategies c; ts_refs := true; ts_zero_grace := x_zero_grace c; ts_gateway_fails := x_gateway_fails c |}.
 
 Definition model (c : case) : tr_res :=
   let i := x_inner c in reconcile_tr (tspec c) (rc_status i) (rc_wl i) (rc_br i) (x_net c) (x_pending c).
@@ -38,6 +38,12 @@ Definition in_rolling_normal (c : case) : bool :=
   rphase_eqb (rp_phase (rc_status i)) RpProgressing &&
   match rp_prog (rc_status i) with Some (PrInRolling, _, _) => true | _ => false end &&
   negb (user_cause (rc_spec i) (rc_status i) (rc_wl i)) && negb (rs_paused (rc_spec i)) && negb (rs_deleting (rc_spec i)) && negb (rs_disabled (rc_spec i)).
+
+Definition in_rolling_normal_or_superseded (c : case) : bool :=
+  let i := x_inner c in
+  rphase_eqb (rp_phase (rc_status i)) RpProgressing &&
+  match rp_prog (rc_status i) with Some (PrInRolling, _, _) => true | _ => false end &&
+  negb (rs_paused (rc_spec i)) && negb (rs_deleting (rc_spec i)) && negb (rs_disabled (rc_spec i)).
 
 Definition is_route_write_name (s : string) : bool := String.eqb s "create Ingress web-canary" || String.eqb s "patch Ingress web-canary".
 
@@ -220,6 +226,42 @@ Definition c04_writes_safe (c : case) : bool :=
       end in
   if applies then writes_never_route_into_void (x_net c) (x_obs_writes c) else true.
 
+(* ---- C10 with traffic routing: traffic is back on stable before the new-revision pods go ---- *)
+Definition route_gone (n : net) : bool := match n_route n with RNone => true | RSet _ => false end.
+(* rollback: a reconcile of the cancellation sequence that patches / deletes the BatchRelease starts from a network without
+   canary route and writes nothing to it (Proofs/Finalising.v: rollback_touches_workload_after_traffic_back) *)
+Definition c10_rollback_traffic_first (c : case) : bool :=
+  let i := x_inner c in let o := rc_obs i in
+  match rp_phase (rc_status i), rp_prog (rc_status i), sub_of (rc_status i) with
+  | RpProgressing, Some (PrCancelling, _, _), Some u =>
+    if finv_b FrRollback u (x_net c) && wl_exists (rc_wl i) && wl_consistent (rc_wl i) && negb (rs_deleting (rc_spec i)) && negb (ob_gone o) &&
+       negb (opt_eqb br_eqb (rc_br i) (ob_br o))
+    then route_gone (x_net c) && match x_obs_writes c with [] => true | _ => false end else true
+  | _, _, _ => true
+  end.
+(* ... and the cancellation sequence keeps the invariant that hypothesis speaks about: in particular its cursor passes
+   RouteTrafficToStable only once the route is really gone (C04's invariant, here for the rollback reason) *)
+Definition c10_cancellation_keeps_invariant (c : case) : bool :=
+  let i := x_inner c in
+  match finalising_reason (rc_status i) with
+  | Some FrRollback => if negb (rs_deleting (rc_spec i)) && negb (rs_disabled (rc_spec i)) then c04_invariant_kept c else true
+  | _ => true
+  end.
+(* supersession: the reset removes the BatchRelease only in a reconcile after whose writes the canary route is gone
+   (supersession_removes_pods_after_traffic_back) *)
+Definition c10_supersession_traffic_first (c : case) : bool :=
+  let i := x_inner c in let o := rc_obs i in let w := rc_wl i in
+  if in_rolling_normal_or_superseded c then
+    match sub_of (rc_status i) with
+    | Some u =>
+      let continuous := negb (sempty (su_canary_rev u)) && negb (String.eqb (wl_canary w) (su_canary_rev u)) && negb (wl_in_rollback w) in
+      let reset_inv := match su_fin u with FtRelease | FtRemoveCanarySvc => route_gone (x_net c) | _ => true end in
+      if continuous && wl_exists w && wl_consistent w && reset_inv && negb (opt_eqb br_eqb (rc_br i) (ob_br o))
+      then route_gone (x_obs_net c) else true
+    | None => true
+    end
+  else true.
+
 (* C07 with traffic routing: every "not done yet" of the traffic manager comes with a requeue, so the quiet states are the
    ones of the reconcile without traffic (Corr/RolloutSM.v: waits_on); quiet additionally means no network write *)
 Definition c07_quiet_means_waiting_tr (c : case) : bool :=
@@ -244,7 +286,10 @@ Definition judge (c : case) : list verdict :=
     clause_known "C04_finalising_invariant_kept" "C04:F31" (reason_changed c) (c04_invariant_kept c);
     clause_known "C06_finalising_invariant_kept_from_any_memory_state" "C06:F31" (reason_changed c) (c04_invariant_kept c);
     clause "C05_done_means_network_clean" (c05_done_means_clean c);
-    clause "C07_quiet_reconcile_with_traffic_is_waiting_for_someone" (c07_quiet_means_waiting_tr c) ].
+    clause "C07_quiet_reconcile_with_traffic_is_waiting_for_someone" (c07_quiet_means_waiting_tr c);
+    clause "C10_rollback_touches_workload_only_after_traffic_is_back" (c10_rollback_traffic_first c);
+    clause "C10_cancellation_keeps_the_traffic_invariant" (c10_cancellation_keeps_invariant c);
+    clause "C10_supersession_removes_pods_only_after_traffic_is_back" (c10_supersession_traffic_first c) ].
 
 Definition tag (c : case) : string :=
   match x_obs_writes c with
